@@ -716,12 +716,13 @@ func TestKF_sparse_T_of_slice(t *testing.T) {
 func TestKF_sparse_swap(t *testing.T) {
 	v := NullSparseFloat64Vector(3)
 	v.At(0).SetFloat64(5)
+	var visited []int
 	p := call(func() {
 		v.Swap(0, 2)
-		_ = v.String()
 		for it := v.ConstIterator(); it.Ok(); it.Next() {
-			_ = it.GetConst().GetFloat64()
+			visited = append(visited, it.Index())
 		}
 	})
-	obs.KFStatus("C10/sparse-vector-swap-raw-slots", p != "" || v.Float64At(2) != 5 || v.Float64At(0) != 0, fmt.Sprintf("panic=%q v=[%v %v %v]", p, v.Float64At(0), v.Float64At(1), v.Float64At(2)))
+	obs.KFStatus("C10/sparse-vector-swap-raw-slots", p != "" || v.Float64At(2) != 5 || v.Float64At(0) != 0 || fmt.Sprint(visited) != "[2]",
+		fmt.Sprintf("panic=%q v=[%v %v %v] iterator visits %v", p, v.Float64At(0), v.Float64At(1), v.Float64At(2), visited))
 }
